@@ -252,7 +252,11 @@ def run(ctx):
                             "c16_delete_undone_refuted", "c16_publication_safe", "c16_split_unseal_refuted",
                             "c16_u2f_once_at_storage_granularity", "c16_u2f_double_spend_refuted", "c16_ssegments_are_runs",
                             "c16_no_write_after_answer", "c16_respond_is_last", "c16_abandoned_write_refuted",
-                            "c16_oauth_pool_disciplined", "c16_lock_copy_refuted", "c16_blocked_only_by_running_request"])
+                            "c16_oauth_pool_disciplined", "c16_lock_copy_refuted", "c16_blocked_only_by_running_request",
+                            "c16_u2f_no_replay_after_overlap", "c16_u2f_no_replay_after_overlap_seg", "c16_u2f_no_replay_replayed_schedule",
+                            "c16_u2f_reissue_replay_refuted", "c16_reissue_disciplined", "c16_reissue_invisible_at_storage_granularity",
+                            "c16_boot_no_replay_after_overlap", "c16_oauth_no_replay_after_overlap",
+                            "c16_load_linearizable", "c16_reader_leaves_no_trace", "c16_view_login_are_readers", "c16_planting_reader_refuted"])
     gen = ctx.extract()
     files = ["kmd/common.go", "kmd/creds.go", "kmd/c16.go", "kmd/c16_stall.go", os.path.join(ctx.work, "gen", "mux_gen.go")]
     overlay, counts = instrument(ctx)
